@@ -363,7 +363,7 @@ func panicSession(r *hx.Run, id string, mask uint32, dm bool) error {
 		}
 		return s
 	}
-	r.Emit("bytes", j(before))
+	r.Emit("bytes0", j(before)) // start-up + SetAppID + a frame, in one piece: only fed to the mode terminal
 	if code == 4 || !seenP {
 		r.Emit("closeby panic 1 1", "nopanic")
 		r.Count("panic-not-provoked")
